@@ -17,7 +17,7 @@ REQUIRED_MONITORS = ["step@SingleSetup(enumerated)", "step@MultiSetup_PreGER(enu
                      "probe-algorithm binding", "user arrays + initial copy unchanged"]
 ALL_STATES = ["filter then decimate", "decimate then decimate", "rollback after decimate", "decimate with ftype", "decimate with n", "decimate with zero_phase=False",
               "detrend type=constant", "bandpass filter", "3 datasets", "1 dataset", "refs listed out of order", "operation legitimately rejected by scipy"]
-REQUIRED_STATES = ["filter then decimate", "decimate then decimate", "rollback after decimate", "decimate with ftype", "decimate with n", "decimate with zero_phase=False",
+REQUIRED_STATES = ["filter frequencies given as a float array", "filter then decimate", "decimate then decimate", "rollback after decimate", "decimate with ftype", "decimate with n", "decimate with zero_phase=False",
                    "detrend type=constant", "bandpass filter", "refs listed out of order"]
 RULE = ("histories over {decimate(q[,ftype][,n][,zero_phase]), detrend([type]), filter(Wn,order,btype), rollback}, with a probe algorithm added after every "
         "step: ALL sequences up to length 3 (quick) / 4 (thorough) over 7 concrete operations on a SingleSetup and on a 2-dataset PreGER object, plus "
@@ -129,8 +129,15 @@ class Driver:
                 model_exc = None
             except Exception as e:  # noqa: BLE001  scipy rejects the operation (e.g. Wn above Nyquist)
                 model_exc = e
+            kw_lib, wn_arr = kw, None
+            if op == "filter" and self.step % 2 == 0:
+                # the critical frequencies as a float array (what np.array / np.linspace / a settings table gives): the same numbers mean the
+                # same filter for every dataset (what the data become is judged below, as for any other call)
+                wn_arr = np.array(kw["Wn"], dtype=float)
+                kw_lib = dict(kw, Wn=wn_arr)
+                ctx.state("filter frequencies given as a float array")
             try:
-                getattr(self.obj, METH[op])(**kw)
+                getattr(self.obj, METH[op])(**kw_lib)
                 lib_exc = None
             except TypeError as e:
                 if "multiple values for keyword" in str(e) or "unexpected keyword" in str(e):
